@@ -18,6 +18,7 @@ package hex
 //@ func Decode
 //@   prop C05, C07
 //@   mode ufloat
+//@   requires [registry] registryOK()
 //@   ensures [bad_hex_is_an_error] !unhexOK(s) ==> result1 != nil && typeof(result0) == nil
 //@   ensures [decodes_those_bytes] unhexOK(s) ==> result0 == wkbDecG(unhexOf(s)) && result1 == wkbDecE(unhexOf(s))
 //@   modifies nothing
